@@ -84,7 +84,15 @@ class Highlighter(object):
         formatter = PlainFormatter()
 
         def readline():
-            return encode(formatter.remove_format(decode(source_io.readline())))
+            line = decode(source_io.readline())
+
+            try:
+                line = formatter.remove_format(line)
+            except ValueError:
+                # Style tags of the source that are not balanced are kept as they are
+                line = line.replace("<", "\\<")
+
+            return encode(line)
 
         tokens = tokenize.tokenize(readline)
         line = ""
